@@ -9,6 +9,7 @@ R06.3  out-of-range numbers are refused on every path of
 from __future__ import annotations
 
 import ast
+import re
 
 from ..core import (AnalysisError, Report, call_name, find_class, find_func, need, norm, short)
 from ..flow import Flow, MustFacts
@@ -26,38 +27,96 @@ def lin_attr(e: ast.AST):
     return lin(e)
 
 
+def _init_then_media(fn: ast.AST) -> bool:
+    """the first range goes to `.init`, every other one to `.media`: accepted forms
+    (a) in the loop: `if <first>: X.init = sp  else: X.media.append(sp)`
+    (b) `head, *tail = ranges` / `ranges[0]`, `ranges[1:]` given as init= / media="""
+    for n in ast.walk(fn):
+        if isinstance(n, ast.If) and n.orelse:
+            def has_init(b):
+                return any(isinstance(x, ast.Assign) and norm(x.targets[0]).endswith('.init') for s in b
+                           for x in ast.walk(s))
+
+            def has_media(b):
+                return any(isinstance(x, ast.Call) and (call_name(x) or '').endswith('.media.append') for s in b
+                           for x in ast.walk(s))
+            if has_init(n.body) and has_media(n.orelse) and not has_media(n.body) and not has_init(n.orelse):
+                return True
+            if has_init(n.orelse) and has_media(n.body) and not has_media(n.orelse) and not has_init(n.body):
+                return True
+    head = tail = None
+    for n in ast.walk(fn):
+        if isinstance(n, ast.Assign) and isinstance(n.targets[0], (ast.Tuple, ast.List)):
+            e = n.targets[0].elts
+            if len(e) == 2 and isinstance(e[0], ast.Name) and isinstance(e[1], ast.Starred):
+                head, tail = e[0].id, norm(e[1].value)
+    for n in ast.walk(fn):
+        if isinstance(n, ast.Call):
+            kw = {k.arg: norm(k.value) for k in n.keywords if k.arg}
+            if 'init' in kw and 'media' in kw:
+                if head and kw['init'] == head and kw['media'] == tail:
+                    return True
+                m = re.fullmatch(r'(\w+)\[0\]', kw['init'])
+                if m and kw['media'] == f'{m.group(1)}[1:]':
+                    return True
+    return False
+
+
 def r06_1(rep: Report) -> None:
     rid = 'R06.1'
     tree = rep.repo.tree(REP)
     cls = need(find_class(tree, 'Representation'), 'Representation')
     fn = need(find_func(cls, 'generateSegmentList'), 'generateSegmentList')
     c = f'{REP}::Representation.generateSegmentList'
-    ends = [n for n in ast.walk(fn) if isinstance(n, ast.Assign) and norm(n.targets[0]) == 'end']
-    if not ends:
-        raise AnalysisError('generateSegmentList: `end` not computed')
-    for e in ends:
-        l = lin_attr(e.value)
-        if l == {'seg.pos': 1, 'seg.size': 1, '': -1}:
+    from ..core import subst_locals
+    # iteration over the stored fragments, in stored order
+    iters: list[tuple[str, ast.AST]] = []
+    for n in ast.walk(fn):
+        if isinstance(n, (ast.For, ast.comprehension)) and 'self.segments' in norm(n.iter):
+            it, tgt = n.iter, n.target
+            if isinstance(it, ast.Call) and call_name(it) == 'enumerate' and isinstance(tgt, ast.Tuple) \
+                    and len(tgt.elts) == 2:
+                it, tgt = it.args[0], tgt.elts[1]
+            if norm(it) != 'self.segments' or not isinstance(tgt, ast.Name):
+                rep.fail(rid, c, 'ranges enumerate self.segments in stored order',
+                         f'`{norm(n.iter)}`: SegmentList no longer walks the stored fragments in order', n)
+                continue
+            iters.append((tgt.id, n))
+    if not iters:
+        raise AnalysisError('generateSegmentList: no iteration over self.segments')
+    vs = [v for v, _ in iters]
+    # every non-constant SegmentPosition is (v.pos, v.pos + v.size - 1)
+    sps = []
+    for n in ast.walk(fn):
+        if isinstance(n, ast.Call) and (call_name(n) or '').split('.')[-1] == 'SegmentPosition':
+            args = {('start', 'end')[i]: a for i, a in enumerate(n.args[:2])}
+            args.update({k.arg: k.value for k in n.keywords if k.arg})
+            if all(isinstance(x, ast.Constant) for x in args.values()):
+                continue
+            sps.append((n, args))
+    if not sps:
+        raise AnalysisError('generateSegmentList: no SegmentPosition built from a fragment')
+    for n, args in sps:
+        st = lin_attr(subst_locals(fn, args['start'])) if 'start' in args else None
+        en = lin_attr(subst_locals(fn, args['end'])) if 'end' in args else None
+        if any(en == {f'{v}.pos': 1, f'{v}.size': 1, '': -1} for v in vs):
             rep.ok(rid, c, 'end = pos + size - 1')
         else:
             rep.fail(rid, c, 'end = pos + size - 1',
-                     f'`{norm(e)}`: the last byte of a segment is pos + size - 1 (inclusive range); '
-                     'any other value makes SegmentList ranges overlap or leave gaps', e)
-    sp = [n for n in ast.walk(fn) if isinstance(n, ast.Call) and call_name(n) == 'SegmentPosition'
-          and n.keywords]
-    ok = any({k.arg: norm(k.value) for k in s.keywords} == {'start': 'seg.pos', 'end': 'end'} for s in sp)
-    if ok:
-        rep.ok(rid, c, 'SegmentPosition(start=seg.pos, end=end)')
-    else:
-        rep.fail(rid, c, 'SegmentPosition(start=seg.pos, end=end)',
-                 'range start/end are not the segment position and its inclusive end', fn)
-    # first element is the init range, the rest media ranges, in stored order
-    t = norm(fn)
-    if 'for seg in self.segments' in t and 'rv.init = sp' in t and 'rv.media.append(sp)' in t:
+                     f'`{norm(n)}` (end = {norm(subst_locals(fn, args["end"])) if "end" in args else "?"}): '
+                     'the last byte of a segment is pos + size - 1 (inclusive range); '
+                     'any other value makes SegmentList ranges overlap or leave gaps', n)
+        if any(st == {f'{v}.pos': 1} for v in vs):
+            rep.ok(rid, c, 'SegmentPosition(start=seg.pos, end=end)')
+        else:
+            rep.fail(rid, c, 'SegmentPosition(start=seg.pos, end=end)',
+                     f'`{norm(n)}`: range start is not the segment position', n)
+    # first element is the init range, the rest media ranges
+    if _init_then_media(fn):
         rep.ok(rid, c, 'init range then media ranges in stored order')
     else:
         rep.fail(rid, c, 'init range then media ranges in stored order',
-                 'SegmentList no longer enumerates self.segments in order', fn)
+                 'the first stored fragment is not the init range followed by the others as media ranges', fn)
     # template renders start-end with a dash
     src = rep.repo.source('templates/segment/list.xml')
     if 'range="{{segList.init.start}}-{{segList.init.end}}"' in src and \
@@ -91,8 +150,9 @@ def r06_2(rep: Report) -> None:
     fn = need(find_func(cls, 'calculate_vod_params'), 'calculate_vod_params')
     c = f'{TIMING}::DashTiming.calculate_vod_params'
     a = [n for n in ast.walk(fn) if isinstance(n, ast.Assign) and norm(n.targets[0]) == 'self.mediaDuration']
-    if len(a) == 1 and norm(a[0].value) == ('timecode_to_timedelta(self.stream_reference.media_duration, '
-                                            'self.stream_reference.timescale)'):
+    from ..core import subst_locals
+    if len(a) == 1 and norm(subst_locals(fn, a[0].value)) == (
+            'timecode_to_timedelta(self.stream_reference.media_duration, self.stream_reference.timescale)'):
         rep.ok(rid, c, 'mediaDuration = reference duration / timescale')
     else:
         rep.fail(rid, c, 'mediaDuration = reference duration / timescale',
@@ -136,51 +196,82 @@ def r06_3(rep: Report) -> None:
     fn = need(find_func(cls, 'calculate_media_segment_index'), 'calculate_media_segment_index')
     c = f'{MR}::LiveMedia.calculate_media_segment_index'
 
-    def tg(test, truth):
-        t = norm(test)
-        if not truth and t in ('seg_num < first or seg_num > last', 'seg_num > last or seg_num < first'):
-            return ['in-range']
-        return []
-    exits = []
-    Flow(MustFacts(lambda st: [], test_gen=tg),
-         on_exit=lambda k, st, s: exits.append((k, st, s))).run(fn, frozenset())
-    normal = [(st, s) for k, st, s in exits if k in ('return', 'fall')]
-    if not normal:
+    # roles: (F, L) receive calculate_first_and_last_segment_number(), N the computed segment number
+    from ..absint import Zone, ZoneDomain, proves_le
+    from ..flow import Disjunctive, each_exit
+    from ..core import subst_locals
+    F = L = N = None
+    for n in ast.walk(fn):
+        if isinstance(n, ast.Assign) and isinstance(n.value, ast.Call) and isinstance(n.targets[0], ast.Tuple):
+            cn = call_name(n.value) or ''
+            names = [e.id if isinstance(e, ast.Name) else None for e in n.targets[0].elts]
+            if cn.endswith('calculate_first_and_last_segment_number') and len(names) == 2:
+                F, L = names
+            elif cn.endswith('calculate_segment_number_and_time') and len(names) == 3:
+                N = names[0]
+    if not (F and L and N):
+        raise AnalysisError('calculate_media_segment_index: first/last/number roles not found')
+    zd = ZoneDomain(attr_roots=('self',))
+    verdicts: list[tuple[bool, ast.AST, str]] = []
+    raises: list[ast.AST] = []
+
+    def on_exit(kind, st, z):
+        if kind == 'raise' and st is not None:
+            raises.append(st)
+        if kind not in ('return', 'fall'):
+            return
+        fn_, ln_, nn_ = (ast.Name(id=x, ctx=ast.Load()) for x in (F, L, N))
+        ok_ = proves_le(zd, z, fn_, nn_) and proves_le(zd, z, nn_, ln_)
+        verdicts.append((ok_, st, z.describe([F, L, N])))
+    Flow(Disjunctive(zd, cap=256), on_exit=each_exit(on_exit)).run(fn, [Zone()])
+    if not verdicts:
         raise AnalysisError('calculate_media_segment_index: no normal exit')
-    if all('in-range' in s for _st, s in normal):
-        rep.ok(rid, c, 'first <= seg_num <= last on every normal return')
+    badv = [v for v in verdicts if not v[0]]
+    if not badv:
+        rep.ok(rid, c, 'first <= seg_num <= last on every normal return', f'{len(verdicts)} return path(s)')
     else:
         rep.fail(rid, c, 'first <= seg_num <= last on every normal return',
-                 'a path returns a segment position without having tested '
-                 '`seg_num < first or seg_num > last`: a number outside the listed range is served', fn)
-    refusal = [n for n in ast.walk(fn) if isinstance(n, ast.If)
-               and norm(n.test) in ('seg_num < first or seg_num > last',)]
-    if refusal and isinstance(refusal[0].body[-1], ast.Raise) and 'ValueError' in norm(refusal[0].body[-1]):
+                 f'a path returns a segment position without implying {F} <= {N} <= {L} '
+                 f'(known: {badv[0][2][:100]}): a number outside the listed range is served', badv[0][1] or fn)
+    handlers = {id(x) for h in ast.walk(fn) if isinstance(h, ast.ExceptHandler) for x in ast.walk(h)}
+    own = [r for r in ast.walk(fn) if isinstance(r, ast.Raise) and id(r) not in handlers]
+    if own and all(r.exc is not None and 'ValueError' in norm(r.exc) for r in own):
         rep.ok(rid, c, 'refusal raises ValueError (-> 404 in the caller)')
     else:
         rep.fail(rid, c, 'refusal raises ValueError (-> 404 in the caller)',
-                 'the out-of-range branch does not raise ValueError', fn)
+                 'the out-of-range branch does not raise ValueError', own[0] if own else fn)
     # first/last for static modes: start_number .. start_number + n - 1
     rt = rep.repo.tree(REP)
     rcls = need(find_class(rt, 'Representation'), 'Representation')
     fl = need(find_func(rcls, 'calculate_first_and_last_segment_number'), 'first_and_last')
-    rets = [n for n in ast.walk(fl) if isinstance(n, ast.Return) and isinstance(n.value, ast.Tuple)]
-    vod = None
-    for n in ast.walk(fl):
-        if isinstance(n, ast.If) and norm(n.test) == "timing.mode != 'live'":
-            vod = n.body[0]
     c2 = f'{REP}::Representation.calculate_first_and_last_segment_number'
-    if isinstance(vod, ast.Return) and isinstance(vod.value, ast.Tuple):
-        from .c20 import lin
-        a, b = vod.value.elts
-        if lin(a) == {'self.start_number': 1} and lin(b) == {'self.num_media_segments': 1,
-                                                              'self.start_number': 1, '': -1}:
+    from ..pathcond import PathCond, entails as pc_entails, f_not, sym_values
+    from .c20 import lin
+    upd, resolve = sym_values()
+    pcd = PathCond(subst={'timing': 'self._timing'}, upd=upd)
+    static_rets: list[tuple[ast.Return, ast.AST]] = []
+    live_atoms = ("timing.mode == 'live'", "self._timing.mode == 'live'", "'live' == timing.mode")
+
+    def on_ret(kind, st, state):
+        if kind != 'return' or st.value is None:
+            return
+        pc = state[0]
+        if any(pc_entails(pc, f_not(('atom', t))) is True for t in live_atoms) or \
+                any(pc_entails(pc, ('atom', t)) is True for t in
+                    ("timing.mode != 'live'", "self._timing.mode != 'live'")):
+            static_rets.append((st, resolve(state, st.value)))
+    Flow(Disjunctive(pcd, cap=128), on_exit=each_exit(on_ret)).run(
+        fl, [PathCond.initial()])
+    if not static_rets:
+        raise AnalysisError('calculate_first_and_last_segment_number: static branch not found')
+    for r, v in static_rets:
+        elts = v.elts if isinstance(v, ast.Tuple) else []
+        if len(elts) == 2 and lin(elts[0]) == {'self.start_number': 1} and \
+                lin(elts[1]) == {'self.num_media_segments': 1, 'self.start_number': 1, '': -1}:
             rep.ok(rid, c2, 'static range is startNumber .. startNumber + N - 1')
         else:
             rep.fail(rid, c2, 'static range is startNumber .. startNumber + N - 1',
-                     f'static first/last is ({norm(a)}, {norm(b)})', vod)
-    else:
-        raise AnalysisError('calculate_first_and_last_segment_number: static branch not found')
+                     f'static first/last is {norm(v)}', r)
 
 
 # ---------------------------------------------------------------- R06.4 indexer running clock
@@ -392,6 +483,10 @@ def r06_5(rep: Report) -> None:
     if branch is None:
         raise AnalysisError('calculate_segment_number_and_time: non-live branch not found')
     found = 0
+    nt = need(find_class(tree, 'SegmentNumberAndTime'), 'SegmentNumberAndTime')
+    fields = [x.target.id for x in nt.body if isinstance(x, ast.AnnAssign) and isinstance(x.target, ast.Name)]
+    if len(fields) < 2:
+        raise AnalysisError('SegmentNumberAndTime: fields not found')
 
     def run(stmts: list[ast.stmt], env: dict) -> None:
         nonlocal found
@@ -411,8 +506,13 @@ def r06_5(rep: Report) -> None:
             if isinstance(st, ast.Assign) and len(st.targets) == 1:
                 env[norm(st.targets[0])] = _lin2(st.value, env)
             elif isinstance(st, ast.Return) and isinstance(st.value, ast.Call) \
-                    and (call_name(st.value) or '').endswith('SegmentNumberAndTime') and len(st.value.args) >= 2:
-                num, idx = _lin2(st.value.args[0], env), _lin2(st.value.args[1], env)
+                    and (call_name(st.value) or '').endswith('SegmentNumberAndTime') \
+                    and len(st.value.args) + len(st.value.keywords) >= 2:
+                actual = dict(zip(fields, st.value.args))
+                actual.update({k.arg: k.value for k in st.value.keywords if k.arg})
+                if fields[0] not in actual or fields[1] not in actual:
+                    raise AnalysisError('SegmentNumberAndTime(..): number / index arguments not found')
+                num, idx = _lin2(actual[fields[0]], env), _lin2(actual[fields[1]], env)
                 diff = dict(num)
                 for k, v in idx.items():
                     diff[k] = diff.get(k, 0) - v
